@@ -74,66 +74,58 @@ func (c *Ctx) ruleRightReceipt(rule string) {
 	if R.Step == nil {
 		return
 	}
-	info := R.Step.Info()
-	pv := c.deqProvenance()
-	if pv.Problem != "" || pv.DeqFn == nil {
-		c.Rep.undecided(rule, R.Step.Short(), "dequeue provenance", "", pv.Problem)
+	fns := filterPkg(c.P.funcsCalling(kDequeue, kDequeueAck), modPath)
+	if len(fns) != 1 {
+		c.Rep.undecided(rule, R.Step.Short(), "dequeue site", "", fmt.Sprintf("%d functions call Dequeue", len(fns)))
 		return
 	}
-	deqFn, dinfo := pv.DeqFn, pv.DeqFn.Info()
-	// every queue that can issue receipts is dequeued with one: the branch calling DequeueWithAckId is selected by
-	// exactly the interface that declares it (a narrower case type sends other acknowledging adapters to plain Dequeue)
-	ast.Inspect(deqFn.Body, func(n ast.Node) bool {
-		ts, ok := n.(*ast.TypeSwitchStmt)
-		if !ok {
+	deqFn, dinfo := fns[0], fns[0].Info()
+	// every queue that can issue receipts is dequeued with one: the receiver of DequeueWithAckId is the selected queue
+	// narrowed to exactly the interface that declares the method (a narrower type sends other acknowledging adapters
+	// to plain Dequeue) — by a type-switch clause or by a type assertion
+	for _, cs := range c.P.calls(deqFn) {
+		if cs.Callee.Key != kDequeueAck {
+			continue
+		}
+		recv := rootIdent(dinfo, cs.Callee.Recv)
+		good := false
+		ast.Inspect(deqFn.Body, func(n ast.Node) bool {
+			switch x := n.(type) {
+			case *ast.TypeSwitchStmt:
+				for _, cc := range x.Body.List {
+					clause := cc.(*ast.CaseClause)
+					if dinfo.Implicits[clause] == recv && recv != nil && len(clause.List) == 1 && qualTypeName(dinfo.TypeOf(clause.List[0])) == modPath+".IAcknowledgeable" {
+						good = true
+					}
+				}
+			case *ast.AssignStmt:
+				if len(x.Rhs) == 1 && len(x.Lhs) >= 1 && rootIdent(dinfo, x.Lhs[0]) == recv && recv != nil {
+					if ta, ok := ast.Unparen(x.Rhs[0]).(*ast.TypeAssertExpr); ok && ta.Type != nil && qualTypeName(dinfo.TypeOf(ta.Type)) == modPath+".IAcknowledgeable" {
+						good = true
+					}
+				}
+			}
 			return true
-		}
-		for _, cc := range ts.Body.List {
-			clause := cc.(*ast.CaseClause)
-			has := false
-			for _, s := range clause.Body {
-				ast.Inspect(s, func(m ast.Node) bool {
-					if call, ok := m.(*ast.CallExpr); ok && resolveCallee(dinfo, call).Key == kDequeueAck {
-						has = true
-					}
-					return true
-				})
-			}
-			if !has {
-				continue
-			}
-			good := len(clause.List) == 1 && qualTypeName(dinfo.TypeOf(clause.List[0])) == modPath+".IAcknowledgeable"
-			c.Rep.check(good, rule, deqFn.Short(), "receipt branch selected by a narrower type than IAcknowledgeable", c.P.pos(clause), "case IAcknowledgeable → DequeueWithAckId",
-				"the branch that dequeues with a receipt is not selected by the IAcknowledgeable interface itself: acknowledging adapters that do not match the narrower type (e.g. the priority variants) are read with plain Dequeue, without a receipt, and their in-flight jobs are lost on a crash")
-		}
-		return true
-	})
+		})
+		c.Rep.check(good, rule, deqFn.Short(), "receipt branch selected by a narrower type than IAcknowledgeable", c.P.pos(cs.Call), "queue.(IAcknowledgeable) → DequeueWithAckId",
+			"the branch that dequeues with a receipt is not selected by the IAcknowledgeable interface itself: acknowledging adapters that do not match the narrower type (e.g. the priority variants) are read with plain Dequeue, without a receipt, and their in-flight jobs are lost on a crash")
+	}
 	nAck, nQ := 0, 0
-	for _, cs := range c.P.calls(R.Step) {
-		switch jobMethod(info, cs.Call, cs.Callee) {
-		case "setAckId":
-			nAck++
-			o := rootIdent(info, cs.Call.Args[0])
-			good := o != nil && pv.Ack[o]
-			if good {
-				// the variable has no other source than this delivery's receipt
-				all, n := assignedOnlyFrom(R.Step, o, func(rhs ast.Expr, idx, cnt int) bool {
-					call, ok := ast.Unparen(rhs).(*ast.CallExpr)
-					if !ok {
-						return false
-					}
-					k := resolveCallee(info, call).Key
-					return (k == kDequeueAck && idx == 2) || (deqFn != R.Step && k == deqFn.Key)
-				})
-				good = all && n == 1
+	for _, sg := range c.stepProvenanceSeq(rule).segments(R.Step) {
+		if sg.Kind != "path" {
+			continue
+		}
+		for _, sym := range sg.Syms {
+			switch {
+			case strings.HasPrefix(sym, "setack:"):
+				nAck++
+				c.Rep.check(sym == "setack:ackid", rule, R.Step.Short(), "setAckId argument is not this delivery's receipt", sg.End, "setAckId(third result of this invocation's DequeueWithAckId)",
+					"the ack id attached to the job must be exactly the receipt DequeueWithAckId returned for this delivery (a constant, the job id or a stale value acknowledges the wrong item): "+sym+" ["+strings.Join(sg.Syms, " ")+"]")
+			case strings.HasPrefix(sym, "setqueue:"):
+				nQ++
+				c.Rep.check(sym == "setqueue:nextq", rule, R.Step.Short(), "setInternalQueue argument is not the queue dequeued from", sg.End, "setInternalQueue(queue selected by this invocation)",
+					"the queue attached to a decoded job must be the queue this invocation selected and dequeued from (Acknowledge would go to another adapter): "+sym+" ["+strings.Join(sg.Syms, " ")+"]")
 			}
-			c.Rep.check(good, rule, R.Step.Short(), "setAckId argument is not this delivery's receipt", c.P.pos(cs.Call), "setAckId(third result of DequeueWithAckId)",
-				"the ack id attached to the job must be exactly the receipt DequeueWithAckId returned for this delivery (a constant, the job id or a stale value acknowledges the wrong item)")
-		case "setInternalQueue":
-			nQ++
-			o := rootIdent(info, cs.Call.Args[0])
-			c.Rep.check(o != nil && pv.Queue[o], rule, R.Step.Short(), "setInternalQueue argument is not the queue dequeued from", c.P.pos(cs.Call), "setInternalQueue(queue the item came from)",
-				"the queue attached to a decoded job must be the queue it was dequeued from (Acknowledge would go to another adapter)")
 		}
 	}
 	if nAck == 0 || nQ == 0 {
@@ -660,13 +652,7 @@ func (c *Ctx) ruleDecodeFailure(rule string) {
 	parse := c.P.FuncByKey("parseToJob")
 	v := c.vocab([]string{"deq", "deqok=", "handoff", "setqueue", "parse", "perr="}, map[string]bool{"handoff": true})
 	sr := v.seq(rule, false)
-	base := sr.classify
-	sr.classify = func(fr *Frame, call *ast.CallExpr, ce *Callee, args []Value) *callEvent {
-		if parse != nil && ce.Key == parse.Key {
-			return &callEvent{Name: "parse", Atomic: true, Results: []Value{{Kind: VTok, S: "parsed"}, {Kind: VTok, S: "perr"}}}
-		}
-		return base(fr, call, ce, args)
-	}
+	_ = parse
 	sawParse := false
 	for _, sg := range sr.segments(R.Step) {
 		if sg.Kind != "path" {
